@@ -177,7 +177,7 @@ func runC01(r *mc.Run) {
 		maxN = 5
 	}
 	r.Bounds["max_voters"] = maxN
-	r.Rule = "for each group size n: every subset of the position alphabet {0..n-1} u {n,n+1,63,64,255} as bitmap (minimal 8-byte-multiple encoding, plus longer encodings for the in-range marks) x every subset of members that signed, delivered through the application's MsgServiceRouter handler of MsgNewBlockHashes; other voted kinds: accepting class + rejecting representatives; every single-field perturbation of the signing context on accepting cases; odd bitmap lengths; Threshold() vs integer ceil for n in [0,255]"
+	r.Rule = "for each group size n: every subset of the position alphabet {0..n-1} u {n,n+1,63,64,255} as bitmap (minimal 8-byte-multiple encoding, plus longer encodings for the in-range marks) x every subset of members that signed, delivered through the application's MsgServiceRouter handler of MsgNewBlockHashes; NewPubkey and NewConsolidation: the same full product for n <= 2, accepting class + rejecting representatives above; every single-field perturbation of the signing context on the accepting case of each kind; odd bitmap lengths; Threshold() vs integer ceil for n in [0,255]"
 	r.Assumptions = []string{"BLS12-381 aggregate signatures are unforgeable (trusted)", "MsgProcessWithdrawal/MsgReplaceWithdrawal quorum cases are exercised in C05's per-state ill-formed variants"}
 
 	// Threshold() for the whole domain
@@ -220,6 +220,11 @@ func runC01(r *mc.Run) {
 						continue
 					}
 					cases = append(cases, &c01Case{Voters: n, Kind: "NewBlockHashes", Marks: marks, BitmapLen: l, Signers: ss})
+					// the other voted kinds share VerifyProposal but have their own call sites: full product for the small groups
+					if n <= 2 && l == lens[0] {
+						cases = append(cases, &c01Case{Voters: n, Kind: "NewPubkey", Marks: marks, BitmapLen: l, Signers: ss},
+							&c01Case{Voters: n, Kind: "NewConsolidation", Marks: marks, BitmapLen: l, Signers: ss})
+					}
 				}
 			}
 		}
@@ -245,7 +250,9 @@ func runC01(r *mc.Run) {
 		}
 		// context perturbations on the accepting case
 		for _, p := range []string{"chain-id", "sequence+1-signed", "epoch+1-signed", "method", "proposer-signed", "payload", "claimed-sequence+1", "claimed-epoch+1"} {
-			cases = append(cases, &c01Case{Voters: n, Kind: "NewBlockHashes", Marks: all, BitmapLen: 8, Signers: fullSigners, Perturb: p})
+			for _, kind := range []string{"NewBlockHashes", "NewPubkey", "NewConsolidation"} {
+				cases = append(cases, &c01Case{Voters: n, Kind: kind, Marks: all, BitmapLen: 8, Signers: fullSigners, Perturb: p})
+			}
 		}
 		// odd encodings: must be rejected (error or recovered panic), never applied
 		for _, l := range []int{1, 7, 9, 31, 33, 40} {
